@@ -553,9 +553,15 @@ macro_rules! op_assign {
                 fxn_input.push(source.clone());
                 let ixes = subscript_formula_ix(&subs[0], env, p)?;
                 let shape = ixes.shape();
+                // A scalar index addresses one element: it is a range of length one.
+                // (MatrixAssignScalar would overwrite the element instead of updating it.)
+                let ixes = match (&shape[..], ixes.as_usize()) {
+                  ([1,1], Ok(ix)) => Value::MatrixIndex(Matrix::DVector(Ref::new(na::DVector::from_vec(vec![ix])))),
+                  _ => ixes,
+                };
                 fxn_input.push(ixes);
                 match shape[..] {
-                  [1,1] => plan.borrow_mut().push(MatrixAssignScalar{}.compile(&fxn_input)?),
+                  [1,1] => plan.borrow_mut().push([<$op AssignRange>]{}.compile(&fxn_input)?),
                   [1,n] => plan.borrow_mut().push([<$op AssignRange>]{}.compile(&fxn_input)?),
                   [n,1] => plan.borrow_mut().push([<$op AssignRange>]{}.compile(&fxn_input)?),
                   _ => todo!(),
@@ -565,10 +571,15 @@ macro_rules! op_assign {
                 fxn_input.push(source.clone());
                 let ix = subscript_formula_ix(&subs[0], env, p)?;
                 let shape = ix.shape();
+                // A scalar row index addresses one row: it is a range of length one.
+                let ix = match (&shape[..], ix.as_usize()) {
+                  ([1,1], Ok(row)) => Value::MatrixIndex(Matrix::DVector(Ref::new(na::DVector::from_vec(vec![row])))),
+                  _ => ix,
+                };
                 fxn_input.push(ix);
                 fxn_input.push(Value::IndexAll);
                 match shape[..] {
-                  [1,1] => plan.borrow_mut().push(MatrixAssignScalarAll{}.compile(&fxn_input)?),
+                  [1,1] => plan.borrow_mut().push([<$op AssignRangeAll>]{}.compile(&fxn_input)?),
                   [1,n] => plan.borrow_mut().push([<$op AssignRangeAll>]{}.compile(&fxn_input)?),
                   [n,1] => plan.borrow_mut().push([<$op AssignRangeAll>]{}.compile(&fxn_input)?),
                   _ => todo!(),
